@@ -18,6 +18,19 @@ _SYMNUM = _re_mod.compile(r"^@[A-Za-z_][A-Za-z_0-9]*$")
 _CONSUMERS = {"sorted", "list", "tuple", "set", "frozenset", "map", "filter", "zip", "dict", "sum", "min", "max", "any", "all", "enumerate", "reversed", "len"}
 
 
+def concrete_key(v):
+    """a dictionary key whose value is fully known: text, None, booleans, numerals, tuples / named tuples of those"""
+    if isinstance(v, Const):
+        return True
+    if isinstance(v, Num):
+        return v.const() is not None
+    if isinstance(v, ListV) and not getattr(v, "tail", None):
+        return all(concrete_key(x) for x in v.items)
+    if isinstance(v, NTV):
+        return all(concrete_key(x) for x in v.values)
+    return False
+
+
 class ExtMixin(object):
 
     def call_external(self, fn, args, kwargs, node, env):
@@ -407,6 +420,12 @@ class ExtMixin(object):
                     except TypeError:
                         pass
             return SortedV(v.items)
+        if isinstance(v, SetAccV) and not v.adds:
+            # only ever filled outside symbolic loops: an ordinary concrete set
+            seen = {}
+            for c in v.concrete:
+                seen.setdefault(c.key(), c)
+            return self.x_sorted([ListV(list(seen.values()), "list")], {}, node, env)
         if isinstance(v, SetAccV):
             return v.as_sorted()
         if isinstance(v, SeqV) and v.kind in ("seqmap", "family", "opaque"):
@@ -1081,6 +1100,75 @@ class ExtMixin(object):
     def m_ListV_copy(self, base, args, kwargs, node):
         return ListV(list(base.items), base.kind)
 
+    # set algebra on concrete sets (members compared by value)
+    def _set_operand(self, v, node):
+        o = self.as_iterable(v, node)
+        if not (isinstance(o, ListV) and not getattr(o, "tail", None)):
+            self.err(node, "set operation with %r" % (v,))
+        return dict((x.key(), x) for x in o.items)
+
+    def _need_set(self, base, node, what):
+        if base.kind != "set":
+            raise RaiseSignal(ExcV(ExtV("builtins.AttributeError"), [Const("'%s' object has no attribute '%s'" % (base.kind, what))]), node)
+
+    def m_ListV_issubset(self, base, args, kwargs, node):
+        self._need_set(base, node, "issubset")
+        other = self._set_operand(args[0], node)
+        return Const(all(x.key() in other for x in base.items))
+
+    def m_ListV_issuperset(self, base, args, kwargs, node):
+        self._need_set(base, node, "issuperset")
+        mine = set(x.key() for x in base.items)
+        return Const(all(k in mine for k in self._set_operand(args[0], node)))
+
+    def m_ListV_isdisjoint(self, base, args, kwargs, node):
+        self._need_set(base, node, "isdisjoint")
+        other = self._set_operand(args[0], node)
+        return Const(not any(x.key() in other for x in base.items))
+
+    def m_ListV_intersection(self, base, args, kwargs, node):
+        self._need_set(base, node, "intersection")
+        items = list(base.items)
+        for a in args:
+            other = self._set_operand(a, node)
+            items = [x for x in items if x.key() in other]
+        return ListV(items, "set")
+
+    def m_ListV_union(self, base, args, kwargs, node):
+        self._need_set(base, node, "union")
+        seen = dict((x.key(), x) for x in base.items)
+        for a in args:
+            for k, x in self._set_operand(a, node).items():
+                seen.setdefault(k, x)
+        return ListV(list(seen.values()), "set")
+
+    def m_ListV_difference(self, base, args, kwargs, node):
+        self._need_set(base, node, "difference")
+        items = list(base.items)
+        for a in args:
+            other = self._set_operand(a, node)
+            items = [x for x in items if x.key() not in other]
+        return ListV(items, "set")
+
+    def m_ListV_symmetric_difference(self, base, args, kwargs, node):
+        self._need_set(base, node, "symmetric_difference")
+        other = self._set_operand(args[0], node)
+        mine = dict((x.key(), x) for x in base.items)
+        return ListV([x for k, x in mine.items() if k not in other] + [x for k, x in other.items() if k not in mine], "set")
+
+    def m_ListV_discard(self, base, args, kwargs, node):
+        self._need_set(base, node, "discard")
+        base.items[:] = [x for x in base.items if x.key() != args[0].key()]
+        return NONE
+
+    def m_ListV_update(self, base, args, kwargs, node):
+        self._need_set(base, node, "update")
+        for a in args:
+            for k, x in self._set_operand(a, node).items():
+                if all(i.key() != k for i in base.items):
+                    base.items.append(x)
+        return NONE
+
     def m_ListV_count(self, base, args, kwargs, node):
         return Num(ep.const(sum(1 for i in base.items if i.key() == args[0].key())))
 
@@ -1096,7 +1184,7 @@ class ExtMixin(object):
         k = args[0].key()
         if k in base.items:
             return base.items[k][1]
-        if isinstance(args[0], (Const, Num)) and all(isinstance(kk, (Const, Num)) for kk, _ in base.items.values()):
+        if concrete_key(args[0]) and all(concrete_key(kk) for kk, _ in base.items.values()):
             return args[1] if len(args) > 1 else NONE
         self.err(node, "dict.get with symbolic key on concrete dict")
 
